@@ -36,6 +36,8 @@ pub enum VFlow {
 pub enum Var {
     Loc(u32),
     Glob(u32),
+    /// the object the running method was called on
+    This,
 }
 
 type Store = HashMap<Var, VV>;
@@ -92,7 +94,7 @@ impl<'a> IrV<'a> {
             match d.head() {
                 "struct" => {
                     let mut members = Vec::new();
-                    for (i, m) in x[1..].iter().enumerate() {
+                    for (i, m) in x[1..].iter().filter(|m| m.head() != "method").enumerate() {
                         members.push((i.to_string(), ir_ty(m)?));
                     }
                     me.types.structs.insert(x[0].atom().to_string(), members);
@@ -188,6 +190,7 @@ impl<'a> IrV<'a> {
         match e.head() {
             "var" => Some(Place { root: Var::Loc(x[0].atom().parse().ok()?), path: vec![] }),
             "glob" => Some(Place { root: Var::Glob(x[0].atom().parse().ok()?), path: vec![] }),
+            "this" => Some(Place { root: Var::This, path: vec![Acc::Field(x[1].atom().parse().ok()?)] }),
             "swz" => {
                 let mut p = self.place(&x[0], st, depth)?;
                 p.path.push(Acc::Swz(swizzle_slots(x[1].atom())?));
@@ -247,6 +250,7 @@ impl<'a> IrV<'a> {
             "var" => Some(Self::read_var(st, Var::Loc(x[0].atom().parse().ok()?))),
             "glob" => Some(Self::read_var(st, Var::Glob(x[0].atom().parse().ok()?))),
             "enumval" => Some(VV::S(*self.enum_values.get(&x[0].atom().parse().ok()?)?)),
+            "this" => get_acc(st.get(&Var::This)?, &Acc::Field(x[1].atom().parse().ok()?)),
             "cast" => {
                 let t = ir_ty(&x[0])?;
                 let v = self.eval(&x[1], st, depth)?;
@@ -302,11 +306,24 @@ impl<'a> IrV<'a> {
                     _ => return None,
                 })
             }
-            "call" => {
+            "call" | "icall" | "mcall" => {
                 let id: u32 = x[0].atom().parse().ok()?;
                 let f = *self.funcs.get(&id)?;
                 let params = f.args()[2].args();
-                let args = &x[1..];
+                // a method called on an object: the object first (a place when it is one), then the arguments
+                let (object, args): (Option<(Option<Place>, VV)>, &[Sx]) = if e.head() == "mcall" {
+                    let o = x.get(1)?;
+                    let obj = match self.place(o, st, depth) {
+                        Some(pl) => {
+                            let v = self.read_place(&pl, st)?;
+                            (Some(pl), v)
+                        }
+                        None => (None, self.eval(o, st, depth)?),
+                    };
+                    (Some(obj), &x[2..])
+                } else {
+                    (None, &x[1..])
+                };
                 if args.len() > params.len() {
                     return None;
                 }
@@ -333,7 +350,27 @@ impl<'a> IrV<'a> {
                         }
                     }
                 }
-                let (ret, finals) = self.call(id, &vals, st, depth)?;
+                // `this` of the callee: the object (mcall), the caller's own object (icall), none (free function)
+                let saved = st.get(&Var::This).cloned();
+                if let Some((_, v)) = &object {
+                    st.insert(Var::This, v.clone());
+                }
+                let result = self.call(id, &vals, st, depth);
+                let final_this = st.get(&Var::This).cloned();
+                if object.is_some() {
+                    match saved {
+                        Some(v) => {
+                            st.insert(Var::This, v);
+                        }
+                        None => {
+                            st.remove(&Var::This);
+                        }
+                    }
+                }
+                let (ret, finals) = result?;
+                if let Some((Some(pl), _)) = &object {
+                    self.write_place(pl, st, final_this?)?;
+                }
                 for (pl, v) in places.iter().zip(finals) {
                     if let Some(pl) = pl {
                         self.write_place(pl, st, v)?;
